@@ -46,7 +46,13 @@ struct Shape {
     IPoly pts;         // lattice coordinates, input order (may contain one repeated vertex)
     std::string kind;  // lattice | lattice+dup | comb | saw | spiral | stair | band | sliver | zigzag (+dup)
     int rfn;           // sample refinement
+    int stride = 1;    // sample every stride-th lattice cell per axis (large-coordinate families)
+    std::string gen;   // non-empty: replayable generator id ("aq:<n>:<variant>") used instead of the point list
 };
+static std::string pts_str(const IPoly& p);
+// replay token of a shape: generator id if it has one, else the point list
+static std::string shape_tok(const Shape& sh) { return sh.gen.empty() ? pts_str(sh.pts) : sh.gen; }
+static Shape shape_from_tok(const std::string& tok, int rfn);
 
 static std::string pts_str(const IPoly& p) {
     std::string s;
@@ -191,6 +197,168 @@ static void build_families(std::vector<Shape>& out, bool thorough, const std::ve
             }
     for (int ph : {0, 2, 3}) add_family(out, zigzag(ph), fmt("zigzag(phase=%d)", ph), variants);
 }
+static void lattice_bbox(const IPoly& p, int64_t& x0, int64_t& y0, int64_t& x1, int64_t& y1);
+
+// --- sort-fallback family: polygons whose vertex coordinate sequence drives Polygon::fracture's
+// sort(coords, n) (gdstk::sort = introsort: quicksort with pivot median of items[0], items[hi>>2], items[hi];
+// depth budget 2*floor(log2 n); heap_sort fallback when the budget is exhausted on a sub-array longer than 16)
+// into the heap_sort fallback, with the content of the heap-sorted sub-array in several arrangements.
+// The permutation is derived from the implementation itself with McIlroy's "antiqsort" adversary: the real
+// gdstk::intro_sort (unbounded depth = the pure quicksort part of gdstk::sort) sorts the indices 0..n-1 with a
+// comparator that decides the values as late as possible; the frozen values val[] make this very quicksort
+// degenerate.  The real gdstk::sort on val[] follows the same comparisons until its depth budget is exhausted
+// (T comparisons, found by comparing the comparison traces of sort and unbounded intro_sort).  The elements still
+// undecided after T comparisons sit in the sub-array that heap_sort receives; any assignment of their values is
+// consistent with the path so far, so they are re-assigned in 4 arrangements (what reaches heap_sort's first
+// slot, i.e. the heap root, varies from the sub-array's minimum to its maximum).
+namespace aq {
+static std::vector<int> val;
+static int gas, nsolid, candidate, ntot;
+static int64_t ncalls, stop_after;
+static bool mirrored;  // false: undecided ("gas") values are larger than every decided one, frozen to 0,1,2,..
+                       // (the unsorted remainder, and so the heap-sorted sub-array, stays at the right end);
+                       // true: gas is smaller than every decided value, frozen to n-1,n-2,.. (remainder at the left,
+                       // so the last slot of the heap-sorted sub-array is in the interior of the whole array)
+struct Stop {};
+static bool cmp(const int& x, const int& y) {
+    if (stop_after >= 0 && ncalls >= stop_after) throw Stop();
+    ncalls++;
+    if (val[x] == gas && val[y] == gas) {
+        int v = mirrored ? ntot - 1 - nsolid : nsolid;
+        nsolid++;
+        if (x == candidate) val[x] = v; else val[y] = v;
+    }
+    if (val[x] == gas) candidate = x; else if (val[y] == gas) candidate = y;
+    return val[x] < val[y];
+}
+// runs the adversary; stop >= 0: abandon the sort after that many comparisons.  idx = array state at the end.
+static void run_adversary(int n, bool mirror, int64_t stop, std::vector<int>& idx) {
+    mirrored = mirror;
+    ntot = n;
+    gas = mirror ? -1000 : n + 1000;
+    val.assign(n, gas);
+    nsolid = 0; candidate = 0; ncalls = 0; stop_after = stop;
+    idx.resize(n);
+    for (int i = 0; i < n; i++) idx[i] = i;
+    try { gdstk::intro_sort<int>(idx.data(), n, (int64_t)1 << 40, cmp); } catch (Stop&) {}
+}
+// comparison traces of the real gdstk::sort vs the real gdstk::intro_sort with an unbounded depth budget on the
+// same data: the same code except for the branch `max_depth == 0` (reached with count > 16), so they differ iff
+// that branch is taken; the first differing comparison is heap_sort's first.
+static std::vector<std::pair<double, double>>* trace;
+static bool traced(const double& a, const double& b) { trace->push_back({a, b}); return a < b; }
+// -1: gdstk::sort never leaves the quicksort path on this data; else number of comparisons before heap_sort starts
+static int64_t comparisons_before_fallback(const std::vector<double>& data) {
+    std::vector<double> a = data, b = data;
+    std::vector<std::pair<double, double>> t1, t2;
+    trace = &t1;
+    gdstk::sort<double>(a.data(), (int64_t)a.size(), traced);
+    trace = &t2;
+    gdstk::intro_sort<double>(b.data(), (int64_t)b.size(), (int64_t)1 << 40, traced);
+    size_t i = 0;
+    while (i < t1.size() && i < t2.size() && t1[i] == t2[i]) i++;
+    if (i == t1.size() && i == t2.size()) return -1;
+    return (int64_t)i;
+}
+// arrangement 0: the adversary's own values; 1: undecided elements ascending in array order (heap root = minimum
+// of the undecided); 2: descending (root = maximum); 3: root = median, the others ascending
+static std::vector<int> permutation(int n, bool mirror, int arrangement, bool* fallback) {
+    std::vector<int> idx;
+    run_adversary(n, mirror, -1, idx);
+    for (int i = 0; i < n; i++) if (val[i] == gas) { val[i] = mirror ? ntot - 1 - nsolid : nsolid; nsolid++; }
+    std::vector<int> v0 = val;
+    int64_t T = comparisons_before_fallback(std::vector<double>(v0.begin(), v0.end()));
+    if (fallback) *fallback = T >= 0;
+    if (T < 0 || arrangement == 0) return v0;
+    run_adversary(n, mirror, T, idx);
+    std::vector<int> und, vals;  // undecided elements in array order at the moment heap_sort would start
+    for (int pos = 0; pos < n; pos++) if (val[idx[pos]] == gas) { und.push_back(idx[pos]); vals.push_back(v0[idx[pos]]); }
+    std::sort(vals.begin(), vals.end());
+    std::vector<int> v = v0;
+    size_t m = und.size();
+    if (m < 2) return v0;
+    if (arrangement == 1) for (size_t i = 0; i < m; i++) v[und[i]] = vals[i];
+    else if (arrangement == 2) for (size_t i = 0; i < m; i++) v[und[i]] = vals[m - 1 - i];
+    else {
+        v[und[0]] = vals[m / 2];
+        for (size_t i = 1, k = 0; i < m; i++, k++) { if (k == m / 2) k++; v[und[i]] = vals[k]; }
+    }
+    // the re-assignment must not change the path up to the fallback
+    int64_t T2 = comparisons_before_fallback(std::vector<double>(v.begin(), v.end()));
+    if (T2 != T) { if (fallback) *fallback = false; }
+    return v;
+}
+// the simple polygon: vertex k (val[k]==0) is C=(-sx,0) in lattice units (sx = n, so that rounding y to the
+// lattice keeps the polar angles about C strictly increasing); vertex j != k is at x = sx*val[j],
+// y = round(sx*(val[j]+1)*tan t_j), t_j increasing along the vertex cycle from -20 to +20 degrees: star-shaped
+// about C, x-sequence order-isomorphic to val[] (sort only compares), bounding box wider than tall.
+static IPoly polygon(const std::vector<int>& v) {
+    int n = (int)v.size(), k = 0;
+    for (int i = 0; i < n; i++) if (v[i] == 0) k = i;
+    const int64_t sx = n;
+    IPoly p(n);
+    p[k] = {-sx, 0};
+    const long double PI = 3.14159265358979323846264338327950288L;
+    for (int m = 1; m < n; m++) {
+        int j = (k + m) % n;
+        long double t = (-20.0L + 40.0L * (m - 1) / (long double)(n - 2)) * PI / 180.0L;
+        p[j] = {sx * v[j], (int64_t)llroundl((long double)(sx * (v[j] + 1)) * tanl(t))};
+    }
+    return p;
+}
+}  // namespace aq
+// variant bit 0: 0 = x-sequence adversarial (fracture's x branch), 1 = transposed (y branch);
+// variant bit 1: 0 = standard adversary, 1 = mirrored adversary; variant bits 2-3: arrangement 0..3
+static bool make_antiqsort_shape(int n, int variant, Shape& out, bool* fallback) {
+    bool fb = false;
+    std::vector<int> v = aq::permutation(n, (variant & 2) != 0, (variant >> 2) & 3, &fb);
+    IPoly p = aq::polygon(v);
+    if (variant & 1) for (auto& q : p) std::swap(q.x, q.y);
+    int64_t x0, y0, x1, y1;
+    lattice_bbox(p, x0, y0, x1, y1);
+    // the coordinates fracture will sort: x if the box is wider than tall, else y (Polygon::fracture)
+    bool xb = (x1 - x0) > (y1 - y0);
+    std::vector<double> data;
+    for (auto& q : p) data.push_back((double)(xb ? q.x : q.y));
+    // probe on the coordinates fracture really sorts
+    if (fallback) *fallback = fb && aq::comparisons_before_fallback(data) >= 0;
+    out.pts = p;
+    out.kind = fmt("antiqsort(n=%d,%s,%s,arr%d)", n, (variant & 1) ? "y" : "x", (variant & 2) ? "mirrored" : "standard", (variant >> 2) & 3);
+    out.rfn = 1;
+    out.stride = (int)std::max<int64_t>(1, std::max(x1 - x0, y1 - y0) / 28);
+    out.gen = fmt("aq:%d:%d", n, variant);
+    return xb == ((variant & 1) == 0);
+}
+static void build_antiqsort(std::vector<Shape>& out, int nlo, int nhi, int step, const std::vector<int>& variants, int* reaching, int* total) {
+    for (int n = nlo; n <= nhi; n += step)
+        for (int variant : variants) {
+            Shape sh;
+            bool fb = false;
+            bool axis_ok = make_antiqsort_shape(n, variant, sh, &fb);
+            if (!axis_ok) { R->internal_error(fmt("antiqsort n=%d variant %d: bounding box does not select the intended axis", n, variant)); continue; }
+            if (!eg::is_simple(sh.pts, true)) { R->internal_error(fmt("antiqsort n=%d variant %d: polygon is not simple", n, variant)); continue; }
+            if (total) (*total)++;
+            if (fb && reaching) (*reaching)++;
+            if (fb) R->count("antiqsort_shapes_reaching_heap_sort_fallback");
+            out.push_back(sh);
+        }
+}
+static Shape shape_from_tok(const std::string& tok, int rfn) {
+    if (tok.compare(0, 3, "aq:") == 0) {
+        int n = 0, variant = 0;
+        sscanf(tok.c_str(), "aq:%d:%d", &n, &variant);
+        Shape sh;
+        bool fb = false;
+        make_antiqsort_shape(n, variant, sh, &fb);
+        fprintf(stderr, "antiqsort shape n=%d variant=%d: sort reaches the heap_sort fallback: %s\n", n, variant, fb ? "yes" : "no");
+        return sh;
+    }
+    Shape sh;
+    sh.pts = parse_pts(tok);
+    sh.kind = "replay";
+    sh.rfn = rfn;
+    return sh;
+}
 // lattice shapes + one repeated-vertex version per listed position
 static void build_lattice(std::vector<Shape>& out, int g, int nmin, int nmax, bool all_dups) {
     std::vector<IPoly> ps;
@@ -216,6 +384,8 @@ static inline bool near_seg(IP a, IP b, IP q, int64_t G) {
     if (l2 == 0 || t <= 0) { i128 dx = q.x - a.x, dy = q.y - a.y; return dx * dx + dy * dy <= G2; }
     if (t >= l2) { i128 dx = q.x - b.x, dy = q.y - b.y; return dx * dx + dy * dy <= G2; }
     i128 c = eg::cross(a, b, q);
+    if (c < 0) c = -c;
+    if (c > ((i128)1 << 62)) return false;  // G^2*l2 < 2^100 for every coordinate range used here; avoids c*c overflowing
     return c * c <= G2 * l2;
 }
 static inline bool near_poly(const IPoly& p, IP q, int64_t G) {
@@ -234,14 +404,14 @@ static void lattice_bbox(const IPoly& p, int64_t& x0, int64_t& y0, int64_t& x1, 
 struct Samp { IP q; int expect; };
 // sample points around the placed copies of `lat` (lattice polygon, offsets in lattice units); points within
 // the guard band of an original edge are dropped (counted in *guarded).  expect = number of copies covering.
-static void make_samples(const IPoly& lat, const std::vector<IP>& offsets, int64_t U, int rfn, std::vector<Samp>& out, int64_t* guarded) {
+static void make_samples(const IPoly& lat, const std::vector<IP>& offsets, int64_t U, int rfn, std::vector<Samp>& out, int64_t* guarded, int stride = 1) {
     const int64_t S = 21 * rfn, G = 3 * S;
     int64_t x0, y0, x1, y1;
     lattice_bbox(lat, x0, y0, x1, y1);
     for (auto& off : offsets) {
         IPoly o = lift(lat, U * S, off);
-        for (int64_t i = rfn * (x0 + off.x - 1); i < rfn * (x1 + off.x + 1); i++)
-            for (int64_t j = rfn * (y0 + off.y - 1); j < rfn * (y1 + off.y + 1); j++) {
+        for (int64_t i = rfn * (x0 + off.x - 1); i < rfn * (x1 + off.x + 1); i += stride)
+            for (int64_t j = rfn * (y0 + off.y - 1); j < rfn * (y1 + off.y + 1); j += stride) {
                 IP q = {(21 * i + 7) * U, (21 * j + 3) * U};
                 if (near_poly(o, q, G)) { if (guarded) (*guarded)++; continue; }
                 out.push_back({q, eg::winding(o, q) != 0 ? 1 : 0});
@@ -346,7 +516,7 @@ static void fracture_case(const Shape& sh, uint64_t mp, int pi, int repkind, boo
     const Prec& pr = PRECS[pi];
     const int64_t U = pr.U, S = 21 * sh.rfn;
     const std::string sub = "fracture";
-    std::string replay = fmt("sub=fracture pts=%s mp=%llu prec=%d rep=%d rfn=%d", pts_str(sh.pts).c_str(), (unsigned long long)mp, pi, repkind, sh.rfn);
+    std::string replay = "sub=fracture pts=" + shape_tok(sh) + fmt(" mp=%llu prec=%d rep=%d rfn=%d", (unsigned long long)mp, pi, repkind, sh.rfn);
     JFields tags = {{"kind", jstr(sh.kind.substr(0, sh.kind.find('(')))}, {"n", jint((int64_t)sh.pts.size())}, {"max_points", juint(mp)}, {"precision", jstr(pr.name)}, {"repetition", jint(repkind)}};
     Polygon poly = {};
     poly.tag = make_tag(3, 7);
@@ -387,7 +557,7 @@ static void fracture_case(const Shape& sh, uint64_t mp, int pi, int repkind, boo
     // 2. region: cover count at every sample point outside the guard band
     std::vector<Samp> samples;
     int64_t guarded = 0;
-    make_samples(sh.pts, {{0, 0}}, U, sh.rfn, samples, &guarded);
+    make_samples(sh.pts, {{0, 0}}, U, sh.rfn, samples, &guarded, sh.stride);
     std::vector<IPoly> fine;
     for (auto& p : pieces) fine.push_back(lift(p, S));
     PartVerdict v = check_partition(samples, fine, U, sh.rfn, true);
@@ -511,7 +681,9 @@ static void decode_with_independent_codec(const std::string& /*path*/) {
     // until it exists the record walker above provides the independent view of record sizes and integers.
 }
 
-static const IP WR_REP = {64, 0}, WR_SHIFT = {0, 64};  // lattice units
+// placement of the copies inside a writer cell (lattice units): repetition pitch along x, translated copy along y
+static IP wr_rep(const Shape& sh) { int64_t x0, y0, x1, y1; lattice_bbox(sh.pts, x0, y0, x1, y1); return {std::max<int64_t>(64, (x1 - x0) + 8), 0}; }
+static IP wr_shift(const Shape& sh) { int64_t x0, y0, x1, y1; lattice_bbox(sh.pts, x0, y0, x1, y1); return {0, std::max<int64_t>(64, (y1 - y0) + 8)}; }
 
 // one library with a cell per shape; each cell holds the polygon twice (layer 3 with a 2x1 repetition,
 // layer 4 translated, no repetition) so that the writer's work array is reused inside a cell
@@ -535,11 +707,11 @@ static void writer_block(const std::vector<Shape>& shapes, size_t first, size_t 
             a->tag = make_tag(3, 7);
             set_points(*a, shapes[s].pts);
             a->repetition.type = RepetitionType::Rectangular;
-            a->repetition.columns = 2; a->repetition.rows = 1; a->repetition.spacing = Vec2{(double)WR_REP.x, (double)WR_REP.y};
+            a->repetition.columns = 2; a->repetition.rows = 1; a->repetition.spacing = Vec2{(double)wr_rep(shapes[s]).x, (double)wr_rep(shapes[s]).y};
             set_two_properties(a->properties);
             Polygon* b = (Polygon*)allocate_clear(sizeof(Polygon));
             b->tag = make_tag(4, 7);
-            set_points(*b, shapes[s].pts, WR_SHIFT);
+            set_points(*b, shapes[s].pts, wr_shift(shapes[s]));
             set_two_properties(b->properties);
             c->polygon_array.append(a);
             c->polygon_array.append(b);
@@ -560,11 +732,11 @@ static void writer_block(const std::vector<Shape>& shapes, size_t first, size_t 
             for (uint64_t i = 0; i < back.cell_array.count; i++) backcells[back.cell_array[i]->name] = back.cell_array[i];
             if (dump::library(lib) != before)
                 R->violation(sub, "originals_modified", {{"max_points", juint(mp)}, {"config", jstr(wc.name)}}, jobj({{"first_shape", jpts(shapes[first].pts)}}), "write_gds changed the library it wrote",
-                             fmt("sub=writer pts=%s mp=%llu cfg=%d rfn=%d", pts_str(shapes[first].pts).c_str(), (unsigned long long)mp, ci, shapes[first].rfn));
+                             "sub=writer pts=" + shape_tok(shapes[first]) + fmt(" mp=%llu cfg=%d rfn=%d", (unsigned long long)mp, ci, shapes[first].rfn));
             for (size_t s = first; s < last; s++) {
                 const Shape& sh = shapes[s];
                 const int64_t S = 21 * sh.rfn;
-                std::string replay = fmt("sub=writer pts=%s mp=%llu cfg=%d rfn=%d", pts_str(sh.pts).c_str(), (unsigned long long)mp, ci, sh.rfn);
+                std::string replay = "sub=writer pts=" + shape_tok(sh) + fmt(" mp=%llu cfg=%d rfn=%d", (unsigned long long)mp, ci, sh.rfn);
                 JFields tags = {{"kind", jstr(sh.kind.substr(0, sh.kind.find('(')))}, {"n", jint((int64_t)sh.pts.size())}, {"max_points", juint(mp)}, {"config", jstr(wc.name)}};
                 std::vector<IPoly> shown;
                 auto case_json = [&]() { return jobj({{"kind", jstr(sh.kind)}, {"points", jpts(sh.pts)}, {"max_points", juint(mp)}, {"config", jstr(wc.name)}, {"records", jpieces(shown, U)}}); };
@@ -619,7 +791,7 @@ static void writer_block(const std::vector<Shape>& shapes, size_t first, size_t 
                     }
                 }
                 for (int layer = 0; layer < 2; layer++) {
-                    std::vector<IP> offs = layer == 0 ? std::vector<IP>{{0, 0}, WR_REP} : std::vector<IP>{WR_SHIFT};
+                    std::vector<IP> offs = layer == 0 ? std::vector<IP>{{0, 0}, wr_rep(sh)} : std::vector<IP>{wr_shift(sh)};
                     std::vector<IPoly>& pcs = per_layer[layer];
                     const char* L = layer == 0 ? "layer 3 (2x1 repetition)" : "layer 4 (translated copy)";
                     if (mp < 5) {
@@ -631,7 +803,7 @@ static void writer_block(const std::vector<Shape>& shapes, size_t first, size_t 
                     }
                     std::vector<Samp> samples;
                     int64_t guarded = 0;
-                    make_samples(sh.pts, offs, U, sh.rfn, samples, &guarded);
+                    make_samples(sh.pts, offs, U, sh.rfn, samples, &guarded, sh.stride);
                     std::vector<IPoly> fine;
                     for (auto& p : pcs) fine.push_back(lift(p, S));
                     PartVerdict v = check_partition(samples, fine, U, sh.rfn, true);
@@ -704,7 +876,7 @@ static void slice_case(const SliceCtx& cx, const std::vector<int>& cuts2, bool x
     const std::string sub = "slice";
     std::string cs;
     for (size_t i = 0; i < cuts2.size(); i++) cs += (i ? ";" : "") + std::to_string(cuts2[i]);
-    std::string replay = fmt("sub=slice pts=%s cuts2=%s axis=%c rfn=%d", pts_str(sh.pts).c_str(), cs.empty() ? "-" : cs.c_str(), x_axis ? 'x' : 'y', sh.rfn);
+    std::string replay = "sub=slice pts=" + shape_tok(sh) + fmt(" cuts2=%s axis=%c rfn=%d", cs.empty() ? "-" : cs.c_str(), x_axis ? 'x' : 'y', sh.rfn);
     Polygon poly = {};
     set_points(poly, sh.pts);
     Array<double> positions = {};
@@ -827,7 +999,7 @@ static int64_t slice_block(const std::vector<Shape>& shapes, size_t first, size_
     for (size_t s = first; s < last && s < shapes.size(); s++) {
         SliceCtx cx;
         cx.sh = &shapes[s];
-        make_samples(shapes[s].pts, {{0, 0}}, SL_U, shapes[s].rfn, cx.samples, &cx.guarded);
+        make_samples(shapes[s].pts, {{0, 0}}, SL_U, shapes[s].rfn, cx.samples, &cx.guarded, shapes[s].stride);
         cx.grid = lift(shapes[s].pts, SL_U);
         for (int ax = 0; ax < 2; ax++) {
             std::vector<std::vector<int>> lists;
@@ -868,7 +1040,7 @@ static void run_search(What what, const std::string& sub, const std::string& bou
         std::string s = fmt("sub=%s-chunk g=%d lim=", wname, g);
         for (size_t i = 0; i < limits.size(); i++) s += (i ? "," : "") + std::to_string(limits[i]);
         s += " shapes=";
-        for (size_t k = (size_t)c * chunk; k < (size_t)c * chunk + chunk && k < shapes.size(); k++) s += (k > (size_t)c * chunk ? "|" : "") + pts_str(shapes[k].pts);
+        for (size_t k = (size_t)c * chunk; k < (size_t)c * chunk + chunk && k < shapes.size(); k++) s += (k > (size_t)c * chunk ? "|" : "") + shape_tok(shapes[k]);
         s += fmt(" rfn=%d", shapes[(size_t)c * chunk].rfn);
         return s;
     };
@@ -881,16 +1053,16 @@ static int replay_main() {
     int rfn = atoi(R->rarg("rfn").c_str());
     if (rfn <= 0) rfn = 2;
     if (sub == "fracture") {
-        Shape sh = {parse_pts(R->rarg("pts")), "replay", rfn};
+        Shape sh = shape_from_tok(R->rarg("pts"), rfn);
         fracture_case(sh, strtoull(R->rarg("mp").c_str(), NULL, 10), atoi(R->rarg("prec").c_str()), atoi(R->rarg("rep").c_str()), true);
     } else if (sub == "writer") {
-        std::vector<Shape> v = {{parse_pts(R->rarg("pts")), "replay", rfn}};
+        std::vector<Shape> v = {shape_from_tok(R->rarg("pts"), rfn)};
         writer_block(v, 0, 1, {strtoull(R->rarg("mp").c_str(), NULL, 10)}, {atoi(R->rarg("cfg").c_str())}, true);
     } else if (sub == "slice") {
-        Shape sh = {parse_pts(R->rarg("pts")), "replay", rfn};
+        Shape sh = shape_from_tok(R->rarg("pts"), rfn);
         SliceCtx cx;
         cx.sh = &sh;
-        make_samples(sh.pts, {{0, 0}}, SL_U, sh.rfn, cx.samples, &cx.guarded);
+        make_samples(sh.pts, {{0, 0}}, SL_U, sh.rfn, cx.samples, &cx.guarded, sh.stride);
         cx.grid = lift(sh.pts, SL_U);
         std::vector<int> cuts;
         std::string c = R->rarg("cuts2");
@@ -903,7 +1075,7 @@ static int replay_main() {
         while (i <= s.size()) {
             size_t e = s.find('|', i);
             if (e == std::string::npos) e = s.size();
-            if (e > i) v.push_back({parse_pts(s.substr(i, e - i)), "replay", rfn});
+            if (e > i) v.push_back(shape_from_tok(s.substr(i, e - i), rfn));
             i = e + 1;
         }
         std::vector<uint64_t> lim;
@@ -939,6 +1111,29 @@ int main(int argc, char** argv) {
     run_search(FRACTURE, "fracture", "families (small parameters) x 4 orientations x max_points {5,6,7,8,12,20} x 3 precisions, + limits {0..4}", fam, 1, LIMF, 0, {}, 10);
     run_search(WRITER, "writer", "g=3 n=5..7 (+dup) x write_gds max_points {5,6,7,8,0,4} x 4 unit/precision configurations", lat36, 64, LIM, 3, ALLCFG, 10);
     run_search(WRITER, "writer", "families (small parameters) x write_gds max_points {5,6,7,8,12,20,0,4} x 4 configurations", fam, 4, LIMF, 0, ALLCFG, 10);
+    {
+        // sort-fallback family (see namespace aq).  variant = transposed | mirrored<<1 | arrangement<<2
+        std::vector<Shape> aqs, aqw;
+        int reach = 0, tot = 0;
+        std::string range;
+        if (T) {
+            std::vector<int> all;
+            for (int v = 0; v < 16; v++) all.push_back(v);
+            build_antiqsort(aqs, 17, 300, 1, {6, 15}, &reach, &tot);   // every n: (x, mirrored, ascending) and (y, mirrored, median first)
+            build_antiqsort(aqs, 20, 300, 7, all, &reach, &tot);       // every 7th n: all 16 variants
+            for (auto& sh : aqs) { int n = 0, v = 0; sscanf(sh.gen.c_str(), "aq:%d:%d", &n, &v); if (n % 4 == 0) aqw.push_back(sh); }
+            range = "n=17..300 x 2 variants + n=20..300 step 7 x 16 variants ({x,y} x {standard,mirrored adversary} x 4 arrangements of the heap-sorted sub-array)";
+        } else {
+            build_antiqsort(aqs, 24, 120, 8, {2, 3, 6, 7, 14, 15, 4}, &reach, &tot);
+            aqw = aqs;
+            range = "n=24..120 step 8 x 7 variants ({x,y} x mirrored adversary x arrangements {own, ascending, median first} + x standard ascending)";
+        }
+        run.note(fmt("antiqsort family (%s): %d of %d polygons drive fracture's sort(coords, n) into intro_sort's max_depth==0 heap_sort branch on a sub-array > 16 "
+                     "(probe: comparison trace of gdstk::sort on the sorted coordinate differs from gdstk::intro_sort with unbounded depth)", range.c_str(), reach, tot));
+        if (reach < tot / 2) run.internal_error(fmt("antiqsort family is vacuous: only %d of %d members reach the heap_sort fallback", reach, tot));
+        run_search(FRACTURE, "fracture", "antiqsort sort-fallback family " + range + " x max_points {5,6,7,8,12,20} x 3 precisions, + limits {0..4}", aqs, 1, LIMF, 0, {}, 30);
+        run_search(WRITER, "writer", "antiqsort sort-fallback family" + std::string(T ? " (members with n % 4 == 0)" : "") + " x write_gds max_points {5,6,7,8,12,20,0,4} x configuration unit=1e-6,precision=1e-9", aqw, 1, LIMF, 0, {3}, 30);
+    }
     run_search(SLICE, "slice", "g=3 n=5..7 (+dup) x every sorted list of <=3 positions from {-1,0,1/2,..,3} x 2 axes, scaling 1000", lat36, 2, {}, 3, {}, 5);
     run_search(SLICE, "slice", "families (small parameters) x 2 orientations x sorted lists of <=3 positions around min/mid/max x 2 axes", famslice, 1, {}, 0, {}, 15);
 
